@@ -70,6 +70,31 @@ c16_harness!(c16_id_bytes_after_nul, S_U16_LE, |d, ti, big| {
     d.b[ti - 4 + 1] = 0x7a;
 });
 
+// name / unit length fields of 0 (no terminator at all - never written by the crate, seen on the wire): the
+// parser returns empty texts, the same value as for the canonical "length 1 + NUL" form, so that the
+// writer represents it faithfully. The two bytes saved are unused space at the end of the declared payload.
+const S_U16V_LE: Shape = Shape { storage: false, htyp: H_EXT_LE, msin: M_LOG_INFO_V, ids: IDS_FULL, payload: P::Verbose(&[arg_v(AK::U(2), 0, 0)]) };
+#[kani::proof]
+#[kani::unwind(24)]
+#[kani::stub(std::fmt::format, crate::models::fmt_format_stub)]
+#[kani::stub(core::str::from_utf8, crate::models::from_utf8_stub)]
+fn c16_name_unit_length_zero() {
+    let s: Shape = S_U16V_LE;
+    let mut bt = build(&s, 1, None, None);
+    let ti = bt.msg_start + headers_len(s.htyp);
+    // the value is literal here: the bytes behind a zero-length field are scanned for a terminator by the
+    // parser (control), and symbolic bytes there do not reach a verdict in 15 minutes
+    bt.args[0].val = 0x3412;
+    let mut d = bt.buf;
+    d.b[ti + 4] = 0; // name length 1 -> 0 (little endian: low byte first)
+    d.b[ti + 6] = 0; // unit length 1 -> 0
+    d.b[ti + 8] = 0x12; // value directly behind the length fields
+    d.b[ti + 9] = 0x34;
+    d.b[ti + 10] = 0xEE; // two unused bytes at the end of the declared payload
+    d.b[ti + 11] = 0xEE;
+    same_message(&s, &bt, d.slice());
+}
+
 // ---------------------------------------------------------------------------
 // Re-serialisation of what the parser returned (bytes -> message -> bytes): the
 // writer units applied to the *parser's own result* reproduce the canonical
